@@ -27,6 +27,9 @@ CHECKS = {
     'C14': dict(category='exploration', technique='exhaustive enumeration of grammars x id masks x domain classes x weight representations, of all json_to_weights specifications up to term weight 3, and of all out-of-range node numbers',
                 text='Every single-rule FGG over Shapes(3,2,2) with every explicit/implicit id mask, three domain classes and every weight representation (lists, tensors, all patterned tensors of the weight shape incl. diagonal/permuted/stride-0/one-hot with inf and 0), plus multi-rule grammars, is serialised by the real fgg_to_json, passed through json.dumps/loads and reloaded; the result is compared rule by rule up to isomorphism (explicit ids kept), with domains, dense weights, sum-product and verbatim second round trip; every weight specification is compared with a harness interpreter of the axis grammar; every out-of-range node number must raise ValueError.',
                 note='Trusted: mc.canon and the axis-grammar interpreter (offset/stride semantics of the module docstring).', design='3/C14'),
+    'C01': dict(category='exploration', technique='exhaustive enumeration of non-recursive grammars (all rule shapes up to a bound x label sharing x domain sizes x weight deviations x semiring/dtype/method) against an exact rational evaluation of the definition',
+                text='Every single-rule grammar over all right-hand-side shapes up to isomorphism (<=3 nodes/<=3 edges, hub shapes with up to 5 edges, two node labels), every sharing pattern of terminal factors, domain sizes 1-3, generic prime weights under the full semiring x dtype x method cross product and every single-entry deviation to 0/inf/1, plus every grammar of a bounded multi-nonterminal family, is evaluated by the real sum_product / sum_products / singleton_fgg and compared entrywise with the definition evaluated in exact rationals (0*inf=0).',
+                note='Trusted: the plain-Python rational evaluator (mc.oracles.eval_nonrec). Float results compared with the tolerance policy of DESIGN 1.2. Bounds in evidence.', design='3/C01'),
 }
 
 ALL = ['C%02d' % i for i in range(1, 21)]
